@@ -160,7 +160,7 @@ func WorkerMain(t *testing.T) {
 	// whichever run happens to come first. A few throw-away runs of fixed
 	// scenarios make every reported run start from the same warmed state, so a
 	// seed behaves the same alone and inside a batch.
-	for i := 0; i < Warmups; i++ {
+	for i := 0; i < Warmups && req.Mode != "gen"; i++ {
 		sc := pe.gen(Mix(0x77a2, uint64(i)), "quick")
 		raw, _ := json.Marshal(sc)
 		if dsc, err := pe.dec(raw); err == nil {
@@ -180,6 +180,11 @@ func WorkerMain(t *testing.T) {
 				os.Exit(2)
 			}
 			runOne(seed, raw, i)
+		}
+	case "gen":
+		for _, seed := range req.Seeds {
+			raw, _ := json.Marshal(pe.gen(seed, req.Tier))
+			emit(&Reply{Seed: seed, Scenario: raw})
 		}
 	case "replay":
 		runOne(0, req.Scenario, 0)
